@@ -94,11 +94,17 @@ def evaluate(case):
     mean = np.array([math.fsum(stored[1][ks == k].tolist()) / int((ks == k).sum()) for k in kq])
     expF = cF * q * (aS * mean + bS - 1.0) + dF
     sc_ = max(1.0, float(np.abs(expF).max()))
-    if exceeds(np.abs(F - expF).max(), 1e-11 * sc_):
-        fails.append(f"stored Q[S(Q)-1] differs from cF*Q*(aS*mean+bS-1)+dF by {np.abs(F - expF).max():.3g} (options {o!r})")
-    if exceeds(np.abs(S - (expF / q + 1.0)).max(), 1e-11 * max(1.0, float(np.abs(S).max()))):
+    # point by point, each relative to the magnitudes that enter *that* point (a huge value in one bin — direct-beam leakage — is no
+    # excuse for the other bins)
+    sci = np.maximum(1.0, np.abs(q * cF) * (np.abs(aS * mean) + abs(bS) + 1.0) + abs(dF))
+    if (np.abs(F - expF) > 1e-11 * sci).any():
+        j = int(np.argmax(np.abs(F - expF) / sci))
+        fails.append(f"stored Q[S(Q)-1] differs from cF*Q*(aS*mean+bS-1)+dF by {np.abs(F - expF)[j]:.3g} at Q={q[j]!r} where the value is {expF[j]!r} (options {o!r})")
+    with np.errstate(all="ignore"):
+        scs = np.maximum(1.0, sci / np.where(q > 0, q, 1.0))
+    if (np.abs(S - (expF / q + 1.0)) > 1e-11 * scs)[q > 0].any():
         fails.append("stored S(Q) differs from stored Q[S(Q)-1]/Q + 1")
-    if exceeds(np.abs(F - q * (S - 1.0)).max(), 1e-11 * sc_):
+    if (np.abs(F - q * (S - 1.0)) > 1e-11 * sci)[q > 0].any():
         fails.append("stored curves do not satisfy Q[S(Q)-1] = Q*(S(Q)-1)")
     # "after merging": every merge, not only the first one on an object — merge again with the same options, then with the options
     # re-tuned through the setter (tuning the scale and re-merging is the normal way of working), always against the same formula
